@@ -163,19 +163,31 @@ theorem write_at_end (buf bs : Bytes) : cursorWrite buf buf.length bs = buf ++ b
 theorem write_fresh (bs : Bytes) : cursorWrite [] 0 bs = bs := by
   unfold cursorWrite padTo; simp
 
-/-- flush publishes exactly the buffer: a reader opened afterwards sees it -/
-theorem publish_exact (files : FMap) (key : Str) (buf : Bytes) :
+/-- flush publishes exactly the buffer (while the file exists): a reader opened afterwards
+sees it -/
+theorem publish_exact (files : FMap) (key : Str) (buf : Bytes) (e0 : Entry)
+    (h0 : files.find? key = some e0) (hf : e0.ftype = .file) :
     ∃ e, (memPublish files key buf).find? key = some e ∧ e.content = buf ∧ e.ftype = .file := by
-  unfold memPublish FMap.insert FMap.find?
-  simp
+  unfold memPublish
+  simp [h0, hf, FMap.insert, FMap.find?]
 
-/-- publishing keeps the creation time of an existing entry (and its access time) -/
+/-- publishing keeps the creation time of the entry (and its access time) -/
 theorem publish_keeps_created (files : FMap) (key : Str) (buf : Bytes) (e : Entry)
-    (h : files.find? key = some e) :
+    (h : files.find? key = some e) (hf : e.ftype = .file) :
     ∃ e', (memPublish files key buf).find? key = some e' ∧ e'.created = e.created ∧
       e'.accessed = e.accessed := by
-  unfold memPublish FMap.insert
-  simp [FMap.find?, h]
+  unfold memPublish
+  simp [h, hf, FMap.insert, FMap.find?]
+
+/-- a handle whose file was removed, or replaced by a directory, publishes nothing: flush and
+drop leave the map unchanged ("handles used after their file was removed") -/
+theorem publish_after_removal (files : FMap) (key : Str) (buf : Bytes)
+    (h : files.find? key = none ∨ ∃ e, files.find? key = some e ∧ e.ftype = .dir) :
+    memPublish files key buf = files := by
+  unfold memPublish
+  rcases h with h | ⟨e, h, hd⟩
+  · simp [h]
+  · simp [h, hd]
 
 /-! Non-vacuity -/
 example : Good { content := [1, 2, 3], pos := 1 } := rfl
